@@ -273,3 +273,57 @@ Fixpoint dedup_adjacent (l : list (list Z)) : list (list Z) :=
 Definition value_list_ok (row : Z * list Z * list (list Z) * list (list Z)) : bool :=
   let '(c, prefix, printed, enforced) := row in
   list_eqb (doc_of c) (prefix ++ join_comma printed) && list_list_eqb (dedup_adjacent printed) enforced.
+
+(* ------------------------------------------------------------------------------------------------------------ *)
+(* UNIDIRECTIONAL_SEQUENCE_LSTM: hand model of the structural constraints (tie: correspondence with the real methods on
+   real Operation objects, CMD lstm).  An operator is described by
+     present : for each of its inputs 1 (a tensor) or 0 (None), ranks : the rank of each input (-1 for None),
+     vars    : is_variable of each input (1 / 0, -1 for None).
+   Results are 1 (True), 0 (False), 2 (the method raises: it reads an attribute of None). *)
+Definition py_slice (l : list Z) (a b : Z) : list Z := firstn (Z.to_nat (b - a)) (skipn (Z.to_nat a) l).   (* l[a:b], 0 <= a <= b *)
+Definition none_in (present : list Z) (a b : Z) : bool := existsb (fun x => x =? 0) (py_slice present a b).
+Definition all_none (present : list Z) (a b : Z) : bool := forallb (fun x => x =? 0) (py_slice present a b).
+Definition is_none (present : list Z) (k : Z) : bool := nth (Z.to_nat k) present 0 =? 0.
+
+(* TFLiteSupportedOperators.constraint_lstm_* *)
+Definition lstm_no_cifg (present : list Z) : bool :=
+  let cifg := negb (none_in present 2 5 || none_in present 6 9) && is_none present 1 && is_none present 5 in negb cifg.
+Definition lstm_no_peep_hole (present : list Z) : bool := all_none present 9 12.
+Definition lstm_no_projection (present : list Z) : bool := all_none present 16 18.
+Definition lstm_no_normalisation (present : list Z) : bool := all_none present 20 24.
+Definition lstm_weights (present : list Z) : bool := negb (none_in present 1 9).
+Definition lstm_weight_dimensions (ranks : list Z) : Z :=
+  if existsb (fun r => r =? -1) (py_slice ranks 5 9) then 2 else if forallb (fun r => r =? 2) (py_slice ranks 5 9) then 1 else 0.
+(* TFLiteSemantic.constraint_lstm_* *)
+Definition lstm_dimensions (ifm_rank ofm_rank : Z) : bool := (ifm_rank =? ofm_rank) && (ofm_rank =? 3).
+Definition lstm_inputs (n : Z) : bool := n =? 24.
+Definition lstm_intermediates (n : Z) : bool := n =? 5.
+Definition lstm_variables (vars : list Z) : Z :=
+  if existsb (fun v => v =? -1) (py_slice vars 18 20) then 2 else if forallb (fun v => negb (v =? 0)) (py_slice vars 18 20) then 1 else 0.
+
+(* what is_operator_supported decides from them (its evaluation order: cifg, peephole, projection, normalisation, weights,
+   recurrent weight dimensions; the last one is only reached when all weights are there, so it cannot raise) *)
+Definition lstm_supported (present ranks : list Z) : bool :=
+  lstm_no_cifg present && lstm_no_peep_hole present && lstm_no_projection present && lstm_no_normalisation present &&
+  lstm_weights present && (lstm_weight_dimensions ranks =? 1).
+(* the documented reading of the six sentences: "Must not use CIFG / Peephole / Projection / Normalisation", "All input and
+   recurrent weights must be available", "All recurrent weights must be 2D": inputs 1..8 are the input and recurrent weights
+   (CIFG is the absence of the input gate's, 1 and 5), 9..11 the peephole weights, 16..17 projection weights and bias,
+   20..23 the layer normalisation coefficients *)
+Definition doc_lstm_supported (present ranks : list Z) : bool :=
+  forallb (fun k => negb (is_none present k)) [1; 2; 3; 4; 5; 6; 7; 8] &&
+  forallb (is_none present) [9; 10; 11] && forallb (is_none present) [16; 17] && forallb (is_none present) [20; 21; 22; 23] &&
+  forallb (fun k => nth (Z.to_nat k) ranks 0 =? 2) [5; 6; 7; 8].
+
+Fixpoint doc_by_name (name : list Z) (t : list (Z * list Z * list Z)) : list Z :=
+  match t with
+  | [] => []
+  | (_, n, d) :: r => if list_eqb n name then d else doc_by_name name r
+  end.
+
+Fixpoint index_of (name : list Z) (l : list (list Z)) (k : Z) : Z :=
+  match l with
+  | [] => -1
+  | x :: r => if list_eqb x name then k else index_of name r (k + 1)
+  end.
+Definition op_by_name (name : list Z) : Z := index_of name op_names 0.
